@@ -316,7 +316,7 @@ DEFER_BODIES = [[["el", ":"], ["el", ","], ["el", "d"]], [["el", "…"]], [["el"
 
 
 def check_deferred(src, kind, body, flag, ins):
-    """Nothing is printed before the end; the lazy result is first forced by the output flag.
+    """Nothing is printed by the structure before the end (an earlier statement may have printed); the lazy result is first forced by the output flag.
     The text must be what the eager reading of the structure semantics prints (the body's prints,
     then no implicit output because something was printed), and it must not depend on whether
     the list was forced just before the end."""
@@ -341,10 +341,13 @@ def check_deferred(src, kind, body, flag, ins):
     return None
 
 
+DEFER_PREFIXES = [[], [_n(5), ["el", ","]], [["str", "a"], ["el", "₴"]]]
+
+
 def _shard_deferred(rec, arg):
     shard, nshards = arg
     i = 0
-    for src in DEFER_SOURCES:
+    for src in [pre + s_ for pre in DEFER_PREFIXES for s_ in DEFER_SOURCES]:
         for kind in ("map", "flt"):
             for body in DEFER_BODIES:
                 for flag in ("j", "s", "W", "jo", "so"):
